@@ -194,6 +194,9 @@ func GenSProgram(t *rapid.T, cfg SGenCfg) SProgram {
 		case "promotecp":
 			nf := rapid.IntRange(1, nodes).Draw(t, "ncpfail")
 			p.Ops = append(p.Ops, SOp{K: "promote", Node: rapid.IntRange(0, nodes-1).Draw(t, "node"), Fail: rapid.Permutation(seqInts(nodes)).Draw(t, "cpfailperm")[:nf]})
+		case "setmodeseq":
+			p.Ops = append(p.Ops, SOp{K: "setmodeseq", Node: rapid.IntRange(0, nodes-1).Draw(t, "node"),
+				Name: rapid.SampledFrom([]string{"ERR,RW", "ERR,RW,RW", "RW,ERR,RW", "ERR,ERR", "ERR,RW,ERR"}).Draw(t, "modeseq")})
 		case "setmode":
 			o := SOp{K: "setmode", Node: rapid.IntRange(0, nodes-1).Draw(t, "node"),
 				Name: rapid.SampledFrom([]string{"ERR", "ERR", "RW", "WO", "bogus"}).Draw(t, "mode")}
